@@ -260,7 +260,9 @@ def exit_path(obs):
 
 def method_of(case):
     """How the answer to the hostile message has to be read: a response to HEAD carries no body whatever its Content-Length says."""
-    return 'HEAD' if b''.join(case['chunks']).lstrip(b'\r\n').startswith(b'HEAD ') else 'GET'
+    d = b''.join(case['chunks']).lstrip(b'\r\n')
+    # (also 'HEAD' followed by some other separator-like byte: a server that splits the request line on any white space has understood HEAD)
+    return 'HEAD' if d[:4] == b'HEAD' and len(d) > 4 and not d[4:5].isalnum() else 'GET'
 
 
 def parse_answer(case, written, closed):
@@ -344,7 +346,13 @@ def judge(case, obs):
         res.append(('KEPT_OPEN_CONNECTION_STILL_SERVES', bool(st['requests'] == 1 and err is None and len(rs) == 1 and rs[0].status == 200),
                     {'read': follow, 'requests': st['requests'], 'written': st['written'][:200], 'earlier_statuses': statuses[:-1]}, cls))
     if case.get('expect') == 'accept' and complete and len(case['chunks']) == 1:   # segmented delivery is C13's subject
-        res.append(('WELL_FORMED_DISPATCHED', any_request and statuses == [200], {'statuses': statuses, 'request_events': any_request}, cls))
+        from checks.c13 import NOT_NORMAL
+        data_ = b''.join(bytes(c) for c in case['chunks'])
+        target = data_.split(b' ', 2)[1] if data_.count(b' ') >= 2 else b''
+        if NOT_NORMAL.search(target) and not any_request and statuses and all(s in (301, 302, 307, 308) for s in statuses):
+            pass     # a target that is not in the server's normal form: it redirects by itself instead of asking the application
+        else:
+            res.append(('WELL_FORMED_DISPATCHED', any_request and statuses == [200], {'statuses': statuses, 'request_events': any_request}, cls))
     if obs['disconnected'] and obs['crash'] is None:
         clean = not obs['residue_scan'] and obs['reachable'] is None
         res.append(('NO_STATE_AFTER_DISCONNECT', clean, {'containers_holding_the_socket': obs['residue_scan'],
